@@ -44,6 +44,12 @@ let cmd_solve c =
    | FS_MismatchError -> out "res" "MISMATCH"
    | FS_PathError -> out "res" "PATHERR")
 
+(* ansatz <k> {n decimal}*  ->  gsa <list hex> (generated ground_state_ansatz n), sr <list hex> (sign_real[n mod 4]) *)
+let cmd_ansatz c =
+  let ns = next_list c next_int in
+  out "gsa" (s_list (fun n -> s_z (ground_state_ansatz (z_of_hex (Printf.sprintf "%x" n)))) ns);
+  out "sr" (s_list (fun n -> s_z (fs_sign_real (nat_of_int n))) ns)
+
 let () =
   iter_lines (fun line ->
       let c = cursor_of_line line in
@@ -51,6 +57,7 @@ let () =
       (try
          (match cmd with
           | "solve" -> cmd_solve c
+          | "ansatz" -> cmd_ansatz c
           | _ -> out "error" ("unknown command " ^ cmd))
        with Failure m -> out "error" m);
       print_endline "end")
